@@ -43,6 +43,13 @@ def mutants_of(src):
                 sites.append(("not", n.lineno, n.col_offset, f.name))
             elif isinstance(n, ast.Constant) and isinstance(n.value, int) and not isinstance(n.value, bool) and n.value in (0, 1, 2):
                 sites.append(("const", n.lineno, n.col_offset, f.name))
+            elif isinstance(n, ast.Attribute) and isinstance(n.ctx, ast.Load) and not n.attr.startswith("_"):
+                # a similar attribute read elsewhere in the same function (same first word: crypto_*, fiat_*, from_*, to_* ...)
+                head = n.attr.split("_")[0]
+                others = sorted({m.attr for m in ast.walk(f) if isinstance(m, ast.Attribute) and isinstance(m.ctx, ast.Load) and m.attr != n.attr and m.attr.split("_")[0] == head and "_" in m.attr
+                                 and not m.attr.startswith("_")})
+                if others and "_" in n.attr:
+                    sites.append(("attr:" + others[(n.lineno + n.col_offset) % len(others)], n.lineno, n.col_offset, f.name))
     return sites
 
 
@@ -66,6 +73,9 @@ def apply(src, site):
                 return s
             if kind == "const" and isinstance(n, ast.Constant):
                 n.value = n.value + 1
+                return ast.unparse(tree)
+            if kind.startswith("attr:") and isinstance(n, ast.Attribute):
+                n.attr = kind[5:]
                 return ast.unparse(tree)
     return None
 
@@ -138,6 +148,9 @@ def main():
     for rel, props in TARGETS.items():
         src = open(os.path.join("/repo/src/rp2", rel)).read()
         sites = mutants_of(src)
+        if "--kind" in a:
+            kk = a[a.index("--kind") + 1]
+            sites = [x for x in sites if x[0].startswith(kk)]
         rnd.shuffle(sites)
         for s in sites[:per]:
             jobs.append((rel, s, props))
